@@ -15,9 +15,10 @@ CONFIGS = [  # (cfg name suffix, Reqs, PathOf op, EL, L)
     ("b", "{1, 2, 3, 4}", "QPath", 2, 1),
     ("c", "{1, 2, 3, 4}", "QPath", 1, 1),
     ("d", "{1, 2, 3, 4}", "QPath", 2, 2),
+    ("f", "{1, 2, 3, 4}", "QPath1", 1, 2),
     ("e", "{1, 2, 3, 4, 5}", "QPath5", 1, 2),
 ]
-PATHS = {"QPath": [1, 1, 2, 1], "QPath5": [1, 2, 1, 1, 2]}
+PATHS = {"QPath": [1, 1, 2, 1], "QPath1": [1, 1, 1, 1], "QPath5": [1, 2, 1, 1, 2]}
 
 
 def cfgtext(reqs, pathop, el, l, walks, maxev):
@@ -60,6 +61,12 @@ def run(ctx):
                 stim.append({"t": len(stim) + 1, "el": el, "l": l, "pathOf": PATHS[pathop], "steps": steps})
         if len(stim) == n0:
             raise vf.Machinery("no behaviours generated for config " + name)
+        # directed: every arrival order, then finished in that order (FIFO hand-over with up to three waiters)
+        directed = json.load(open(os.path.join(g.dir, "directed.json")))
+        if name == "f":         # one path, endpoint limit 1: every step of the directed histories is applicable
+            for steps in directed:
+                stim.append({"t": len(stim) + 1, "el": el, "l": l, "pathOf": PATHS[pathop], "steps": steps})
+            ctx.cov["directed_histories"] = ctx.cov.get("directed_histories", 0) + len(directed)
     spath = os.path.join(ctx.work, "stimuli.ndjson")
     vf.write_ndjson(spath, stim)
     out = os.path.join(ctx.work, "traces.ndjson")
